@@ -563,7 +563,9 @@ def runtime_cfg(scn, facts, lookups="all"):
         comps.append(rc)
     lk = srt if lookups == "all" else [regname_of(scn, ci) for ci in range(len(scn["comps"]))]
     return {"id": scn["id"], "comps": comps, "regorder": scn["regorder"], "names": rank, "config": config_yaml(scn),
-            "loaderFail": scn["loaderFail"], "lookups": lk, "dup": scn.get("dup", [])}
+            "loaderFail": scn["loaderFail"], "lookups": lk, "dup": scn.get("dup", []),
+            # the factory's registry calls are traced in two scenarios out of three (the third runs without the wrapper)
+            "trace": scn.get("trace", scn["id"] % 3 != 0)}
 
 
 # ------------------------------------------------------------------------------------------------
@@ -700,6 +702,31 @@ def coq_event(e):
     raise ValueError(k)
 
 
+def coq_rop(e):
+    """one recorded registry call -> rop"""
+    n = e["n"] if e["n"] >= 0 else 4999
+    v = e.get("v")
+    ver = None
+    if v is not None:
+        ver = coq_ver(v) if v["o"] >= 0 else "(VOrig 4999)"
+    op = e["op"]
+    if op == "g":
+        return "(OGet %d %s %s)" % (n, vlib.coq_bool(e.get("e", False)), "(Some %s)" % ver if ver else "None")
+    if op == "b":
+        return "(OBegin %d)" % n
+    if op == "af":
+        return "(OAddFactory %d %d)" % (n, n)
+    if op == "eo":
+        return "(OEndOk %d %s)" % (n, ver or "(VOrig 4999)")
+    if op == "ee":
+        return "(OEndErr %d)" % n
+    if op == "as":
+        return "(OAddSingleton %d %s)" % (n, ver or "(VOrig 4999)")
+    if op == "rm":
+        return "(ORemove %d)" % n
+    raise ValueError(op)
+
+
 def coq_obs(res, app_rank=None):
     oc = {"ok": "OOk", "err": "OErr", "panic": "OPanic"}.get(res["outcome"], "OOther")
     log = vlib.coq_list(coq_event(e) for e in (res.get("log") or []))
@@ -727,7 +754,11 @@ def coq_obs(res, app_rank=None):
         else:
             lks.append("(LTVer %s)" % coq_ver(lo["tok"]))
     la = vlib.coq_list(coq_event(e) for e in (res.get("logafter") or []))
-    return "(mkObs %s %s %s %s %s)" % (oc, log, vlib.coq_list(fields), vlib.coq_list(lks), la)
+    ops = "None"
+    if res.get("traced"):
+        ops = "(Some (%s, %s))" % (vlib.coq_list(coq_rop(e) for e in (res.get("trace") or [])),
+                                   vlib.coq_list(coq_rop(e) for e in (res.get("traceaft") or [])))
+    return "(mkObs %s %s %s %s %s %s)" % (oc, log, vlib.coq_list(fields), vlib.coq_list(lks), la, ops)
 
 
 def coq_case(cid, scn, facts, res, cfg):
@@ -780,6 +811,14 @@ def get_facts(ctx, binp):
     return facts
 
 
+def _limit_memory():
+    # a changed tree may re-create components without bound (a start that eats tens of GB before the case
+    # timeout fires): cap the worker's address space, so that it dies alone and the scenario counts as a crash
+    import resource
+    gb = int(os.environ.get("VERIF_WORKER_AS_GB", "6"))
+    resource.setrlimit(resource.RLIMIT_AS, (gb << 30, gb << 30))
+
+
 def run_batch(ctx, binp, cfgs, tag, case_timeout="10s"):
     """returns {scenario id: result dict}; crashes and hangs become outcomes of single scenarios"""
     inp = ctx.wpath("scn_%s.json" % tag)
@@ -789,7 +828,7 @@ def run_batch(ctx, binp, cfgs, tag, case_timeout="10s"):
     restarts = 0
     while start < len(cfgs):
         p = subprocess.run([binp, "-input", inp, "-from", str(start), "-case-timeout", case_timeout],
-                           stdout=subprocess.PIPE, stderr=subprocess.PIPE, timeout=3600)
+                           stdout=subprocess.PIPE, stderr=subprocess.PIPE, timeout=3600, preexec_fn=_limit_memory)
         last_started = None
         done = False
         for ln in p.stdout.decode("utf-8", "replace").splitlines():
